@@ -56,7 +56,7 @@ HARNESSES = [
   dict(name='bind_vs_bind', unit='bb', defines={'ROUNDS': 2, 'MODE': 4}, scenarios=[sc(REG_FIRST=0)],
        desc='two threads call bind_to on the same fresh context C (created->locked CAS, spin_wait_while_eq on the loser): both return only when C is bound; C is registered in exactly one list, my_context_list names it, list sizes add up.',
        bounds=bnd(free_rounds=2), **COMMON),
-  dict(name='destroy_vs_cancel', unit='dc', defines={'ROUNDS': 1, 'MODE': 5, 'TARGET': 1}, scenarios=[sc(REG_FIRST=0, BIND_T=1, ORDER=0), sc(REG_FIRST=1, BIND_T=0, ORDER=1)],
+  dict(name='destroy_vs_cancel', unit='dc', defines={'ROUNDS': 1, 'MODE': 5, 'TARGET': 1}, scenarios_quick=[sc(REG_FIRST=0, BIND_T=1, ORDER=0)], scenarios=[sc(REG_FIRST=0, BIND_T=1, ORDER=0), sc(REG_FIRST=1, BIND_T=0, ORDER=1)],
        desc='~task_group_context(C) (C bound under P) || cancel_group_execution(G): C leaves its list, the propagation never writes to C after the destructor returned, remaining descendants P,S cancelled, I untouched.',
        bounds=bnd(), **COMMON),
   dict(name='cancel_vs_cancel', unit='cc', defines={'ROUNDS': 1, 'MODE': 2},
